@@ -168,6 +168,11 @@ M("c04.toy.dsa.verify.modq", "C04", DSAPY, "v = (pow(g, u1, p) * pow(y, u2, p) %
 M("c04.toy.dsa.sign.r", "C04", DSAPY, "r = pow(g, k, p) % q  # r = (g**k mod p) mod q", "r = pow(g, k, q) % p", "K-pw|dsa.toy.sign")
 M("c04.twin.toy.ecdsa.verify", "C04", ECCPY, "return (point1 + point2).x % order == rs[0]", "v = (point2 + point1).x % order\n        return v == rs[0]", twin=True)
 
+NUMPY = "lib/Crypto/Util/number.py"
+M("c14.legacy.mr.n_1", "C14", NUMPY, "        if z == 1 or z == n_1:\n            continue", "        if z == 1:\n            continue", "K-pw|primality.legacy")
+M("c14.legacy.mr.tested", "C14", NUMPY, "        while a in tested:\n            a = getRandomRange (2, n, randfunc)\n", "", "K-pw|primality.legacy.mr")
+M("c14.legacy.isprime.order", "C14", NUMPY, "        if N == p:\n            return True\n        if N % p == 0:\n            return False", "        if N % p == 0:\n            return False\n        if N == p:\n            return True", "K-pw|primality.legacy.isPrime")
+M("c14.legacy.isprime.small", "C14", NUMPY, "    if N < 3 or N & 1 == 0:\n        return N == 2\n    for p in sieve_base:", "    if N < 3 or N & 1 == 0:\n        return N <= 2\n    for p in sieve_base:", "K-pw|primality.legacy.isPrime")
 KDFPY = "lib/Crypto/Protocol/KDF.py"
 M("c12.bcrypt.hash24", "C12", KDFPY, "hash_enc = _bcrypt_encode(ctext[:-1])", "hash_enc = _bcrypt_encode(ctext)", "K-pw|bcrypt.assembly")
 M("c12.bcrypt.nul72", "C12", KDFPY, "    if len(password) < 72:\n        password += b\"\\x00\"", "    if len(password) <= 72:\n        password += b\"\\x00\"", "")
